@@ -1,6 +1,8 @@
 """C06 - matching scores are geometrically exact, bounded and symmetric."""
 import itertools
 import math
+
+import numpy as np
 import os
 
 from perception_eval.evaluation.matching import CenterDistanceMatching, IOU2dMatching, IOU3dMatching, PlaneDistanceMatching
@@ -254,6 +256,23 @@ def check_case(case, acc):
                 if any(abs(x - y) > 1e-9 for x, y in zip(got3, (cd, pd, i2, i3))):
                     bad("non-unit-quaternion", "scores %s when the %s's orientation is given by quaternion elements of norm %s, %s with the unit "
                         "quaternion of the same rotation" % (got3, nm, scale_q, (cd, pd, i2, i3)))
+        # positions held as float64 arrays (what the library's own frame-conversion helpers store): scoring is read-only and repeatable
+        e_np, g_np = G.mk3d(eb), G.mk3d(ga)
+        e_np.state.position = np.array(e_np.state.position, dtype=np.float64)
+        g_np.state.position = np.array(g_np.state.position, dtype=np.float64)
+        pe0, pg0 = e_np.state.position.copy(), g_np.state.position.copy()
+        acc.exec(12)
+        try:
+            runs = [_scores(e_np, g_np), _scores(g_np, e_np), _scores(e_np, g_np)]
+        except Exception as ex:  # noqa
+            runs = None
+            bad("array-position:raises", "scoring objects whose positions are float64 arrays raised %r" % (ex,))
+        if runs is not None:
+            if not (np.array_equal(e_np.state.position, pe0) and np.array_equal(g_np.state.position, pg0)):
+                bad("array-position:object-modified", "scoring changed an object's position array: %s -> %s / %s -> %s" % (pe0, e_np.state.position, pg0, g_np.state.position))
+            for nm, got4 in zip(("first", "swapped", "repeated"), runs):
+                if any(abs(x - y) > 1e-9 for x, y in zip(got4, (cd, pd if nm != "swapped" else rpd, i2, i3))):
+                    bad("array-position:scores", "%s scoring of objects with array positions gives %s, tuple positions give %s" % (nm, got4, (cd, pd, i2, i3)))
     for ego in G.ego_menu(_SEED[0])[1:]:
         acc.exec(4)
         tf = G.transforms(ego)
